@@ -1,3 +1,586 @@
 package main
 
-func c02(args []string) int { return 2 }
+// C02 - request/response correlation on one xprotocol client connection.
+// A REAL stream client (stream.NewStreamClient -> registered stream factory -> xprotocol streamConn) over a fake
+// api.Connection that records writes; frames are fed through the client's read filter exactly as the connection's
+// read loop does (OnData -> Dispatch).  Histories of {new stream, one-way stream, response id, stream reset,
+// connection reset}; after every op the id counter, the client stream table and the per-stream deliveries/resets
+// are compared with Model/XConn.v; the finder checks delivery soundness on the observed deliveries.
+
+import (
+	"context"
+	"encoding/binary"
+	"fmt"
+	"net"
+	"reflect"
+	"sort"
+	"strings"
+	"sync"
+
+	"mosn.io/api"
+	"mosn.io/mosn/pkg/log"
+	"mosn.io/mosn/pkg/protocol/xprotocol/bolt"
+	"mosn.io/mosn/pkg/stream"
+	sx "mosn.io/mosn/pkg/stream/xprotocol"
+	"mosn.io/mosn/pkg/types"
+	"mosn.io/pkg/buffer"
+	"mosn.io/pkg/variable"
+
+	. "vh/vhlib"
+)
+
+// ---------------------------------------------------------------------------------------------
+// fake connection
+
+type fakeFM struct{ rf []api.ReadFilter }
+
+func (f *fakeFM) AddReadFilter(rf api.ReadFilter)               { f.rf = append(f.rf, rf) }
+func (f *fakeFM) AddWriteFilter(wf api.WriteFilter)             {}
+func (f *fakeFM) ListReadFilter() []api.ReadFilter              { return f.rf }
+func (f *fakeFM) ListWriteFilters() []api.WriteFilter           { return nil }
+func (f *fakeFM) InitializeReadFilters() bool                   { return true }
+func (f *fakeFM) OnRead()                                       {}
+func (f *fakeFM) OnWrite(b []api.IoBuffer) api.FilterStatus     { return api.Continue }
+
+type fakeConn struct {
+	types.ClientConnection // nil: any method not overridden below panics (none is used by the stream layer)
+	id                     uint64
+	mu                     sync.Mutex
+	writes                 [][]byte
+	cbs                    []api.ConnectionEventListener
+	fm                     *fakeFM
+}
+
+var fakeAddr = &net.TCPAddr{IP: net.IPv4(127, 0, 0, 1), Port: 9}
+
+func (c *fakeConn) ID() uint64                                             { return c.id }
+func (c *fakeConn) AddConnectionEventListener(cb api.ConnectionEventListener) { c.cbs = append(c.cbs, cb) }
+func (c *fakeConn) FilterManager() api.FilterManager                       { return c.fm }
+func (c *fakeConn) SetNoDelay(bool)                                        {}
+func (c *fakeConn) SetTransferEventListener(func() bool)                   {}
+func (c *fakeConn) LocalAddr() net.Addr                                    { return fakeAddr }
+func (c *fakeConn) RemoteAddr() net.Addr                                   { return fakeAddr }
+func (c *fakeConn) State() api.ConnState                                   { return api.ConnActive }
+func (c *fakeConn) Write(bufs ...buffer.IoBuffer) error {
+	c.mu.Lock()
+	defer c.mu.Unlock()
+	for _, b := range bufs {
+		c.writes = append(c.writes, append([]byte(nil), b.Bytes()...))
+		b.Drain(b.Len())
+	}
+	return nil
+}
+func (c *fakeConn) Close(ccType api.ConnectionCloseType, ev api.ConnectionEvent) error {
+	for _, cb := range c.cbs {
+		cb.OnEvent(ev)
+	}
+	return nil
+}
+func (c *fakeConn) takeWrites() [][]byte {
+	c.mu.Lock()
+	defer c.mu.Unlock()
+	w := c.writes
+	c.writes = nil
+	return w
+}
+
+// ---------------------------------------------------------------------------------------------
+
+type xstreamRec struct {
+	idx      int
+	tok      uint32
+	id       uint64
+	oneway   bool
+	sender   types.StreamSender
+	mu       sync.Mutex
+	recv     []uint32 // tokens of the answers delivered to this stream's receiver
+	resets   int
+	destroys int
+}
+
+func (s *xstreamRec) OnReceive(ctx context.Context, headers api.HeaderMap, data buffer.IoBuffer, trailers api.HeaderMap) {
+	tok := uint32(0xffffffff)
+	switch f := headers.(type) {
+	case *ppFrame:
+		tok = f.tok
+	default:
+		if v, ok := headers.Get("tok"); ok {
+			fmt.Sscan(v, &tok)
+		}
+	}
+	s.mu.Lock()
+	s.recv = append(s.recv, tok)
+	s.mu.Unlock()
+}
+func (s *xstreamRec) OnDecodeError(ctx context.Context, err error, headers api.HeaderMap) {}
+func (s *xstreamRec) OnResetStream(reason types.StreamResetReason) {
+	s.mu.Lock()
+	s.resets++
+	s.mu.Unlock()
+}
+func (s *xstreamRec) OnDestroyStream() {
+	s.mu.Lock()
+	s.destroys++
+	s.mu.Unlock()
+}
+
+type xworld struct {
+	gen      string // GenU32 | GenS32 | GenU64 | bolt (real bolt codec, GenU32)
+	conn     *fakeConn
+	cli      stream.Client
+	csc      types.ClientStreamConnection
+	streams  []*xstreamRec
+	lastTok  map[uint64]uint32 // id -> token of the last request written with that id (what the upstream would answer)
+	inflight map[int]bool      // truth kept by the harness: created with receiver, not yet answered, not reset by its holder
+}
+
+var fakeConnID uint64 = 1 << 40
+
+func newXWorld(gen string, c0 uint64) *xworld {
+	w := &xworld{gen: gen, lastTok: map[uint64]uint32{}, inflight: map[int]bool{}}
+	fakeConnID++
+	w.conn = &fakeConn{id: fakeConnID, fm: &fakeFM{}}
+	var name api.ProtocolName
+	if gen == "bolt" {
+		name = bolt.ProtocolName
+	} else {
+		name = genCodecs[gen].name
+	}
+	ctx := variable.NewVariableContext(context.Background())
+	w.cli = stream.NewStreamClient(ctx, name, w.conn, nil)
+	if w.cli == nil {
+		panic("no stream factory for " + string(name))
+	}
+	// exported field of the (unexported) client struct
+	w.csc = reflect.ValueOf(w.cli).Elem().FieldByName("ClientStreamConnection").Interface().(types.ClientStreamConnection)
+	if !sx.VerifSetIDBase(w.csc, c0) {
+		panic("not an xprotocol stream connection")
+	}
+	// the connection is connected (client.ConnectedFlag), as after a successful Connect()
+	for _, cb := range w.conn.cbs {
+		cb.OnEvent(api.Connected)
+	}
+	return w
+}
+
+func (w *xworld) frameBytes(typ byte, id uint64, tok uint32) []byte {
+	if w.gen != "bolt" {
+		return ppFrameBytes(typ, id, tok)
+	}
+	var m interface{}
+	h := &boltHdr{kv: map[string]string{"tok": fmt.Sprint(tok)}}
+	if typ == ppResponse {
+		m = bolt.NewRpcResponse(uint32(id), bolt.ResponseStatusSuccess, h, nil)
+	} else {
+		m = bolt.NewRpcRequest(uint32(id), h, nil)
+	}
+	b, err := (&bolt.XCodec{}).NewXProtocol(context.Background()).Encode(context.Background(), m)
+	if err != nil {
+		panic(err)
+	}
+	return append([]byte(nil), b.Bytes()...)
+}
+
+type boltHdr struct{ kv map[string]string }
+
+func (h *boltHdr) Get(k string) (string, bool) { v, ok := h.kv[k]; return v, ok }
+func (h *boltHdr) Set(k, v string)             { h.kv[k] = v }
+func (h *boltHdr) Add(k, v string)             { h.kv[k] = v }
+func (h *boltHdr) Del(k string)                { delete(h.kv, k) }
+func (h *boltHdr) Range(f func(k, v string) bool) {
+	for k, v := range h.kv {
+		if !f(k, v) {
+			return
+		}
+	}
+}
+func (h *boltHdr) Clone() api.HeaderMap { return h }
+func (h *boltHdr) ByteSize() uint64     { return 0 }
+
+// parse a written request frame: (id, token)
+func (w *xworld) parseWritten(b []byte) (uint64, uint32, bool) {
+	if w.gen != "bolt" {
+		if len(b) != ppLen || b[0] != ppMagic {
+			return 0, 0, false
+		}
+		return binary.BigEndian.Uint64(b[2:]), binary.BigEndian.Uint32(b[10:]), true
+	}
+	f, err := (&bolt.XCodec{}).NewXProtocol(context.Background()).Decode(context.Background(), buffer.NewIoBufferBytes(b))
+	if err != nil || f == nil {
+		return 0, 0, false
+	}
+	xf := f.(api.XFrame)
+	var tok uint32
+	if v, ok := xf.GetHeader().Get("tok"); ok {
+		fmt.Sscan(v, &tok)
+	}
+	return xf.GetRequestId(), tok, true
+}
+
+type xop struct {
+	K string `json:"k"` // new | oneway | resp | reset | connreset
+	S int    `json:"s"` // reset: stream index; resp: stream index whose id is answered (-1: ID is literal)
+	ID uint64 `json:"id"`
+}
+
+func (o xop) String() string {
+	switch o.K {
+	case "resp":
+		return fmt.Sprintf("resp(%d)", o.ID)
+	case "reset":
+		return fmt.Sprintf("reset(%d)", o.S)
+	}
+	return o.K
+}
+
+type xobsT struct {
+	Out     string   `json:"out"`
+	Ctr     uint64   `json:"ctr"`
+	Keys    []uint64 `json:"keys"`
+	Streams [][3]int `json:"streams"` // alive, recv, resets
+	coqOut  string
+}
+
+type xfinding struct{ sig, what string }
+
+func (w *xworld) apply(o xop) (xobsT, []xfinding) {
+	var fs []xfinding
+	out := "ONone"
+	coqOut := "ONone"
+	before := make([]int, len(w.streams))
+	for i, s := range w.streams {
+		s.mu.Lock()
+		before[i] = len(s.recv)
+		s.mu.Unlock()
+	}
+	switch o.K {
+	case "new", "oneway":
+		ctx := buffer.NewBufferPoolContext(variable.NewVariableContext(context.Background()))
+		rec := &xstreamRec{idx: len(w.streams), tok: uint32(1000 + len(w.streams)), oneway: o.K == "oneway"}
+		var recv types.StreamReceiveListener
+		if !rec.oneway {
+			recv = rec
+		}
+		rec.sender = w.cli.NewStream(ctx, recv)
+		rec.id = rec.sender.GetStream().ID()
+		rec.sender.GetStream().AddEventListener(rec)
+		// the id must not be the id of a stream in flight (the harness never keeps a stream across a turn of the id space)
+		for i, fl := range w.inflight {
+			if fl && w.streams[i].id == rec.id {
+				fs = append(fs, xfinding{"xconn:id-collision-with-inflight-stream", fmt.Sprintf("stream %d got id %d which stream %d (in flight) holds", rec.idx, rec.id, i)})
+			}
+		}
+		w.streams = append(w.streams, rec)
+		if !rec.oneway {
+			w.inflight[rec.idx] = true
+		}
+		// write the request
+		var hdr api.HeaderMap
+		if w.gen == "bolt" {
+			hdr = bolt.NewRpcRequest(0, &boltHdr{kv: map[string]string{"tok": fmt.Sprint(rec.tok)}}, nil)
+		} else {
+			hdr = &ppFrame{typ: ppRequest, tok: rec.tok}
+		}
+		rec.sender.AppendHeaders(ctx, hdr, true)
+		ws := w.conn.takeWrites()
+		if len(ws) != 1 {
+			fs = append(fs, xfinding{"xconn:request-not-written-once", fmt.Sprintf("stream %d: %d writes", rec.idx, len(ws))})
+		} else if id, tok, ok := w.parseWritten(ws[0]); !ok || id != rec.id || tok != rec.tok {
+			fs = append(fs, xfinding{"xconn:written-id-differs-from-allocated-id", fmt.Sprintf("stream %d allocated id %d, wrote id %d token %d (own token %d)", rec.idx, rec.id, id, tok, rec.tok)})
+		}
+		w.lastTok[rec.id] = rec.tok
+		out = fmt.Sprintf("OId %d", rec.id)
+		coqOut = fmt.Sprintf("OId %s", CoqN(rec.id))
+	case "resp":
+		tok := w.lastTok[o.ID]
+		b := w.frameBytes(ppResponse, o.ID, tok)
+		for _, rf := range w.conn.fm.rf {
+			rf.OnData(buffer.NewIoBufferBytes(b))
+		}
+		out, coqOut = "ODrop", "ODrop"
+	case "reset":
+		w.streams[o.S].sender.GetStream().ResetStream(types.StreamLocalReset)
+		delete(w.inflight, o.S)
+	case "connreset":
+		w.conn.Close(api.NoFlush, api.RemoteClose)
+	}
+	// deliveries caused by this op
+	for len(before) < len(w.streams) {
+		before = append(before, 0)
+	}
+	ndeliv := 0
+	for i, s := range w.streams {
+		s.mu.Lock()
+		recv := append([]uint32(nil), s.recv...)
+		s.mu.Unlock()
+		if len(recv) > before[i] {
+			ndeliv += len(recv) - before[i]
+			out = fmt.Sprintf("ODeliver %d", i)
+			coqOut = out
+			for _, t := range recv[before[i]:] {
+				if t != s.tok {
+					fs = append(fs, xfinding{"xconn:foreign-response", fmt.Sprintf("stream %d (token %d) received the answer carrying token %d", i, s.tok, t)})
+				}
+			}
+			if o.K != "resp" || s.id != o.ID {
+				fs = append(fs, xfinding{"xconn:delivery-without-matching-response", fmt.Sprintf("stream %d (id %d) received a delivery during %s", i, s.id, o)})
+			}
+			if !w.inflight[i] && s.resets == 0 {
+				fs = append(fs, xfinding{"xconn:delivery-to-completed-stream", fmt.Sprintf("stream %d is not in flight but received a delivery", i)})
+			}
+			delete(w.inflight, i)
+		}
+		if len(recv) > 1 {
+			fs = append(fs, xfinding{"xconn:response-delivered-twice", fmt.Sprintf("stream %d received %d deliveries", i, len(recv))})
+		}
+		s.mu.Lock()
+		if s.destroys > 1 {
+			fs = append(fs, xfinding{"xconn:stream-destroyed-twice", fmt.Sprintf("stream %d destroyed %d times", i, s.destroys)})
+		}
+		s.mu.Unlock()
+	}
+	if ndeliv > 1 {
+		fs = append(fs, xfinding{"xconn:one-response-delivered-to-several-streams", fmt.Sprintf("%s caused %d deliveries", o, ndeliv)})
+	}
+	ob := xobsT{Out: out, coqOut: coqOut}
+	ob.Ctr, _ = sx.VerifIDBase(w.csc)
+	ob.Keys = sx.VerifClientStreamIDs(w.csc)
+	sort.Slice(ob.Keys, func(i, j int) bool { return ob.Keys[i] < ob.Keys[j] })
+	for _, s := range w.streams {
+		s.mu.Lock()
+		alive := 0
+		if s.destroys == 0 {
+			alive = 1
+		}
+		ob.Streams = append(ob.Streams, [3]int{alive, len(s.recv), s.resets})
+		s.mu.Unlock()
+	}
+	return ob, fs
+}
+
+func (o xop) coq() string {
+	switch o.K {
+	case "new":
+		return "XNew false"
+	case "oneway":
+		return "XNew true"
+	case "resp":
+		return "XResponse " + CoqN(o.ID)
+	case "reset":
+		return fmt.Sprintf("XReset %d", o.S)
+	}
+	return "XConnReset"
+}
+
+func (ob xobsT) coq() string {
+	var keys, ss []string
+	for _, k := range ob.Keys {
+		keys = append(keys, CoqN(k))
+	}
+	for _, s := range ob.Streams {
+		ss = append(ss, fmt.Sprintf("(%v,%d,%d)", s[0] == 1, s[1], s[2]))
+	}
+	return fmt.Sprintf("(%s, %s, %s, %s)", ob.coqOut, CoqN(ob.Ctr), CoqList(keys), CoqList(ss))
+}
+
+type xhist struct {
+	gen  string
+	c0   uint64
+	ops  []xop
+	obs  []xobsT
+	fnd  []xfinding
+	kind string
+}
+
+func (h *xhist) key() string {
+	var b strings.Builder
+	fmt.Fprintf(&b, "%s|%d", h.gen, h.c0)
+	for _, o := range h.ops {
+		b.WriteString("|" + o.String())
+	}
+	return b.String()
+}
+func (h *xhist) coq() string {
+	g := h.gen
+	if g == "bolt" {
+		g = "GenU32"
+	}
+	var steps []string
+	for i, o := range h.ops {
+		steps = append(steps, fmt.Sprintf("(%s, %s)", o.coq(), h.obs[i].coq()))
+	}
+	return fmt.Sprintf("(%s, %s, [%s])", g, CoqN(h.c0), strings.Join(steps, ";\n   "))
+}
+func (h *xhist) descr() map[string]interface{} {
+	var ops []string
+	for _, o := range h.ops {
+		ops = append(ops, o.String())
+	}
+	return map[string]interface{}{"generator": h.gen, "counter0": h.c0, "ops": ops, "obs": h.obs, "family": h.kind}
+}
+
+// script: ops given symbolically; "resp" with S>=0 answers the id of stream S (resolved at run time)
+func runX(gen string, c0 uint64, kind string, script []xop) *xhist {
+	w := newXWorld(gen, c0)
+	h := &xhist{gen: gen, c0: c0, kind: kind}
+	for _, o := range script {
+		if o.K == "resp" && o.S >= 0 {
+			if o.S >= len(w.streams) {
+				continue
+			}
+			o.ID = w.streams[o.S].id
+		}
+		if o.K == "reset" && o.S >= len(w.streams) {
+			continue
+		}
+		ob, fs := w.apply(o)
+		h.ops = append(h.ops, o)
+		h.obs = append(h.obs, ob)
+		h.fnd = append(h.fnd, fs...)
+	}
+	return h
+}
+
+func permutations(n int) [][]int {
+	if n == 0 {
+		return [][]int{{}}
+	}
+	var out [][]int
+	for _, p := range permutations(n - 1) {
+		for i := 0; i <= len(p); i++ {
+			q := append(append(append([]int{}, p[:i]...), n-1), p[i:]...)
+			out = append(out, q)
+		}
+	}
+	return out
+}
+
+func c02(args []string) int {
+	run := NewRun("C02", args)
+	log.DefaultLogger.SetLogLevel(log.FATAL)
+	log.Proxy.SetLogLevel(log.FATAL)
+	registerProtocols()
+	r := run.R
+	run.Sum.Rule = "histories on one real xprotocol client stream connection (stream.NewStreamClient over a recording connection; id generators = the real GenerateRequestID of bolt (uint32), tars (int32, sign-extended), dubbo (uint64), and the real bolt codec end to end): families perm (N<=5 streams, responses in EVERY permutation), dup (every response twice / unknown ids), late (response after stream reset), connreset (connection reset at EVERY position of a base history), wrap (counter preset just below 2^31, 2^32, 2^63, 2^64 so the ids wrap inside the history), random (8-40 ops over {new, one-way, response to any stream's id incl. completed ones, unknown id, stream reset incl. stale and repeated, connection reset}); non-trivial: at least 2 streams and one op other than new/response-in-order; distinct by (generator, initial counter, op sequence). Second mode: the same operations from concurrent goroutines, delivery soundness only."
+	gens := []string{"GenU32", "GenS32", "GenU64", "bolt"}
+	wraps := map[string][]uint64{
+		"GenU32": {0, 1<<32 - 3, 1<<32 - 1, 1<<31 - 2, 1<<64 - 2, 1<<33 - 2},
+		"bolt":   {0, 1<<32 - 3, 1<<64 - 2},
+		"GenS32": {0, 1<<31 - 3, 1<<31 - 1, 1<<32 - 2, 1<<64 - 2, 1<<63 - 2},
+		"GenU64": {0, 1<<64 - 3, 1<<64 - 1, 1<<32 - 2, 1<<63 - 2},
+	}
+	var hs []*xhist
+	add := func(h *xhist) { hs = append(hs, h) }
+	for _, g := range gens {
+		maxN := run.N(4, 5)
+		if g == "GenU32" {
+			maxN = 5
+		}
+		// perm
+		for n := 1; n <= maxN; n++ {
+			for _, p := range permutations(n) {
+				var sc []xop
+				for i := 0; i < n; i++ {
+					sc = append(sc, xop{K: "new"})
+				}
+				for _, s := range p {
+					sc = append(sc, xop{K: "resp", S: s})
+				}
+				c0 := wraps[g][r.Intn(len(wraps[g]))]
+				add(runX(g, c0, "perm", sc))
+			}
+		}
+		for _, c0 := range wraps[g] {
+			// dup + unknown
+			for n := 1; n <= 3; n++ {
+				var sc []xop
+				for i := 0; i < n; i++ {
+					sc = append(sc, xop{K: "new"})
+				}
+				for i := n - 1; i >= 0; i-- {
+					sc = append(sc, xop{K: "resp", S: i}, xop{K: "resp", S: -1, ID: c0 + 1000}, xop{K: "resp", S: i})
+				}
+				add(runX(g, c0, "dup", sc))
+			}
+			// late: reset then the response arrives; repeated reset; reset after completion
+			add(runX(g, c0, "late", []xop{{K: "new"}, {K: "new"}, {K: "reset", S: 0}, {K: "resp", S: 0}, {K: "resp", S: 1}, {K: "reset", S: 1}, {K: "reset", S: 0}, {K: "new"}, {K: "resp", S: 2}}))
+			// connreset at every position
+			base := []xop{{K: "new"}, {K: "new"}, {K: "resp", S: 0}, {K: "new"}, {K: "oneway"}, {K: "reset", S: 1}, {K: "resp", S: 2}, {K: "resp", S: 1}, {K: "new"}, {K: "resp", S: 4}}
+			for pos := 0; pos <= len(base); pos++ {
+				sc := append(append(append([]xop{}, base[:pos]...), xop{K: "connreset"}), base[pos:]...)
+				add(runX(g, c0, "connreset", sc))
+			}
+			// wrap: enough allocations to cross the boundary, responses in reverse
+			var sc []xop
+			for i := 0; i < 6; i++ {
+				sc = append(sc, xop{K: "new"})
+			}
+			for i := 5; i >= 0; i-- {
+				sc = append(sc, xop{K: "resp", S: i})
+			}
+			add(runX(g, c0, "wrap", sc))
+		}
+		// random
+		nr := run.N(250, 4000)
+		for i := 0; i < nr; i++ {
+			c0 := wraps[g][r.Intn(len(wraps[g]))]
+			if r.Pct(20) {
+				c0 = r.U64()
+			}
+			n := 8 + r.Intn(run.N(25, 33))
+			var sc []xop
+			ns := 0
+			for j := 0; j < n; j++ {
+				switch x := r.Intn(100); {
+				case x < 35 || ns == 0:
+					sc = append(sc, xop{K: "new"})
+					ns++
+				case x < 40:
+					sc = append(sc, xop{K: "oneway"})
+					ns++
+				case x < 70:
+					sc = append(sc, xop{K: "resp", S: r.Intn(ns)})
+				case x < 76:
+					sc = append(sc, xop{K: "resp", S: -1, ID: r.U64()})
+				case x < 94:
+					sc = append(sc, xop{K: "reset", S: r.Intn(ns)})
+				default:
+					sc = append(sc, xop{K: "connreset"})
+				}
+			}
+			add(runX(g, c0, "random", sc))
+		}
+	}
+
+	header := "From MV Require Import Model.XConn.\nFrom Coq Require Import List NArith Bool.\nImport ListNotations.\nOpen Scope nat_scope.\n"
+	sh := run.NewShard(header, "xconn_case", "xconn_mismatches")
+	for _, h := range hs {
+		nontrivial := false
+		nnew := 0
+		for _, o := range h.ops {
+			if o.K == "new" || o.K == "oneway" {
+				nnew++
+			}
+			run.Sum.Distribution["op:"+o.K]++
+		}
+		nontrivial = nnew >= 2 && h.kind != "perm" || (h.kind == "perm" && nnew >= 2)
+		run.Count(h.key(), nontrivial, "family:"+h.kind, "generator:"+h.gen)
+		for _, f := range h.fnd {
+			run.Fail(f.sig, f.what, h.descr())
+		}
+		sh.Add(h.coq(), h.descr())
+		if sh.Len() >= 80 {
+			sh.Close()
+			sh = run.NewShard(header, sh.Typ, sh.Eval)
+		}
+		if h.kind == "connreset" || h.kind == "late" {
+			run.Sample(h.descr())
+		}
+	}
+	sh.Close()
+
+	c02server(run)
+	c02concurrent(run)
+	c02window(run)
+	return run.Finish()
+}
